@@ -29,6 +29,9 @@ impl ::core::fmt::Display for FixBuf {
 }
 #[derive(Debug, PartialEq, Clone, Default)]
 pub struct CG<const N: usize>(pub u8);
+#[derive(Debug, PartialEq, Clone, Copy)]
+pub struct PErr(pub usize);
+pub fn perr(s: &str) -> PErr { PErr(s.len()) }
 pub fn dw_u8() -> u8 { 7 }
 pub fn dw_i32() -> i32 { -3 }
 pub fn dw_bool() -> bool { true }
@@ -55,7 +58,7 @@ def decorate_common(r, spec, data):
 
 def fam_fieldless(r, name):
     s = strgen.build(r, name, list(ALL15), n=r.choice([1, 2, 3, 5, 8]), fieldless=True, allow_default=False, allow_prefix=True, uni=True,
-                     distinct_lengths=True, dup_within_variant=False)
+                     distinct_lengths=True, dup_within_variant=False, avoid_snake_collisions=True)
     for v in s.variants:
         if "{" in "".join(v.serialize + [v.to_string or ""]):
             v.serialize, v.to_string = [], None
@@ -140,6 +143,8 @@ def fam_data(r, name, lifetimes=False):
     names = [model.snakify(v.ident) for v in spec.variants]
     if len(set(names)) != len(names) or model.overlaps(spec):
         return None
+    if not any(v.default and not v.disabled for v in spec.variants) and r.random() < 0.5:
+        spec.parse_err = ("{ROOT}PErr", "{ROOT}perr")
     return decorate_common(r, spec, True)
 
 
@@ -166,6 +171,8 @@ def render(spec, cfg):
     elif cfg == "b_nocrate":
         strum = "renamed"
     s.strum_path = strum
+    if s.parse_err:
+        s.parse_err = tuple(x.replace("{ROOT}", "crate::") for x in s.parse_err)
     s.extra_enum_attrs = [a.replace("{STRUM}", strum).replace("{CRATE_PASS}", crate_pass) for a in s.extra_enum_attrs]
     src = s.render()
     if cfg == "c_shadow":
